@@ -302,11 +302,15 @@ def check_metadata(s, meta, out):
         'symbol_size_3_1': ((size + 2) * 3,) * 2,
         'symbol_size_2_0': (size * 2,) * 2,
         'symbol_size_2.5_default': ((size + 2 * (2 if micro else 4)) * 2.5,) * 2,
+        # segno.utils called directly with the matrix size
+        'u:default_border': 2 if micro else 4, 'u:border_none': 2 if micro else 4, 'u:border_7': 7, 'u:border_0': 0,
+        'u:symbol_size_default': (size + 2 * (2 if micro else 4),) * 2, 'u:symbol_size_3_1': ((size + 2) * 3,) * 2,
+        'u:symbol_size_1_0': (size,) * 2,
     }
     modes = [x['mode'] for x in s.segments]
     want['mode'] = modes[0] if len(modes) == 1 else None
     bad = {k: (meta.get(k), v) for k, v in want.items() if k in meta and meta.get(k) != v
-           and not (k.startswith('symbol_size') and tuple(meta.get(k)) == v)}
+           and not ('symbol_size' in k and tuple(meta.get(k)) == v)}
     if bad and s.parse_error is None:
         out.append(('C02', 'metadata', {'reported_vs_matrix': bad}))
     elif bad:
